@@ -481,6 +481,29 @@ fn totality(e: &str, paths: &[String]) -> String {
             }
         }
     });
+    op("matched-owned", &mut || {
+        // the OWNED forms of matched text, asked for every index incl. several beyond the last capture, and the
+        // combinator's matched text likewise
+        for p in paths {
+            let c = CandidatePath::from(p.as_str());
+            if let Some(m) = g.matched(&c) {
+                let a = m.to_owned();
+                let b = m.into_owned();
+                for i in 0..=n + 3 {
+                    let _ = (a.get(i), b.get(i));
+                }
+                let _ = (a.complete().len(), b.complete().len(), a.to_candidate_path(), b.to_owned().get(n + 7));
+            }
+            if let Ok(any) = wax::any([e, e]) {
+                if let Some(m) = any.matched(&c) {
+                    let o = m.into_owned();
+                    for i in 0..=n + 3 {
+                        let _ = o.get(i);
+                    }
+                }
+            }
+        }
+    });
     out.join(" ")
 }
 
